@@ -10,8 +10,10 @@ Definition th_of (r : trec) : option Q := match t_hot r with Some t => Some t | 
 Fixpoint near_list (sc : Q) (a b : list Q) : bool :=
   match a, b with [], [] => true | x :: r, y :: s => qleb (Qabs (x - y)) sc && near_list sc r s | _, _ => false end.
 (* mode 0 = same results; 1 = translated by d; 2 = duties scaled by k; 3 = mirrored *)
-Definition c12_b (mode : Z) (k d : Q) (a b : trec) : list Z :=
-  let sc := eps6 * Qmax 1 (Qmax (Qabs (t_qh a) + Qabs (t_qc a) + Qabs (t_qr a)) (Qabs (t_qh b) + Qabs (t_qc b) + Qabs (t_qr b))) in
+(* [slack]: absolute allowance for the 6-decimal rounding of the temperature grid when the translation is not a multiple of 1e-6 K
+   (2e-6 K x sum of the heat-capacity flow rates, computed by the harness; 0 for every other transformation) *)
+Definition c12_b (mode : Z) (k d slack : Q) (a b : trec) : list Z :=
+  let sc := eps6 * Qmax 1 (Qmax (Qabs (t_qh a) + Qabs (t_qc a) + Qabs (t_qr a)) (Qabs (t_qh b) + Qabs (t_qc b) + Qabs (t_qr b))) + slack in
   let nr := fun x y => qleb (Qabs (x - y)) sc in
   let tsl := 1 # 100000 in
   if Z.eqb mode 3 then
